@@ -184,6 +184,14 @@ def execute(job):
         return execute_real(job)
     ev = {"c": c, "cfg": c["cfg"], "order": order or [], "outcome": "ok", "dask": [], "numpy": [], "src": []}
     try:
+        if (c["A"][2] // 60 + c["A"][5] // 60 + c["hs"]) % 2 == 0:
+            # history: earlier in this process the SAME rasters were lazily reprojected with another chunking of the source and destination that has the
+            # same NUMBER of chunks per axis (boundaries rotated): whatever was remembered then must not leak into this call
+            rot = lambda t: list(t[1:]) + list(t[:1])  # noqa: E731
+            try:
+                build_dask(dict(c, sy=rot(c["sy"]), sx=rot(c["sx"]), dy=rot(c["dy"]), dx=rot(c["dx"])))
+            except Exception:  # noqa: BLE001 - the earlier call is history, not the case under judgement
+                pass
         xx, dst, ids, rkw, yy = build_dask(c)
         ref = xx.odc.reproject(dst, **rkw)
         if order is None:
@@ -208,8 +216,14 @@ def execute(job):
                     ev["outcome"] = "co_scheduled_reprojection_with_other_fill_parameters_differs_from_its_whole_array_result"
         else:
             g = RealGraph(yy.data)
-            blocks = g.execute(order)
-            out = np.block(blocks)
+            try:
+                blocks = g.execute(order)
+                out = np.block(blocks)
+            except MachineryError:
+                # the schedule was drawn for the graph of the same request built in another process; if THIS construction has other dependencies
+                # (a construction that depends on what the process did before), the result is judged under the default order instead
+                ev["graph_differs"] = True
+                out = yy.compute(scheduler="synchronous").values
         if ev["outcome"] != "ok":
             pass
         elif out.dtype != ref.dtype or out.shape != ref.shape:
